@@ -20,7 +20,7 @@ from vlib import coqlist, zlist, zlit, boollit
 from props import c08 as H   # shared harness helpers of the same owner (context, dart bodies)
 
 PROPERTY = "C02"
-MODEL_TARGETS = ["Model/C02Stream.vo", "Model/C02Gemmx.vo", "Model/C02Check.vo"]
+MODEL_TARGETS = ["Model/C02Stream.vo", "Model/C02Gemmx.vo", "Model/C02Xdma.vo", "Model/C02Check.vo"]
 RULE = ("layout resolution: 1-4 iteration dims, rank 1-3 operands, element widths 8/16/32/64, layouts none / strided "
         "(+offset) / tiled-strided (1-2 tile levels, aligned and misaligned with the schedule), affine schedules with "
         "offsets; conversion: snax_alu (1 template dim) and snax_gemmx (3 template dims, matmul i32/i8, gemm with "
@@ -220,7 +220,40 @@ def gemmx_conv_body(kind):
     return {"args": ["i8", "i8", "i32", "i32"], "pre": pre, "ops": mac + add + ["dart.yield %h : !dart.stream<i32>"]}
 
 
+def xdma_conv_body(kind):
+    """bodies the xDMA extensions recognise: kernel.add on i32 (AddExtension), kernel.rescale i32->i8 / i8->i32"""
+    if kind == "xadd":
+        add = H._generic("%g", ["%s0", "%s1"], ["!dart.stream<i32>", "!dart.stream<i32>"], "%a : i32, %b : i32, %c : i32",
+                         "%k = kernel.add %a, %b : i32, i32 -> i32", "i32", "%k")
+        return {"args": ["i32", "i32", "i32"], "pre": [], "ops": add + ["dart.yield %g : !dart.stream<i32>"]}
+    r = {"zpin": 0, "zpout": 0, "mult": [1], "shift": [0], "max": 127, "min": -128, "dr": 0}
+    a, b = ("i32", "i8") if kind == "xresc_down" else ("i8", "i32")
+    resc = H._generic("%g", ["%s0"], [f"!dart.stream<{a}>"], f"%a : {a}, %c : {b}",
+                      f'%k = "kernel.rescale"(%a) {H._rescale_attrs(r)} : ({a}) -> {b}', b, "%k")
+    return {"args": [a, b], "pre": [], "ops": resc + [f"dart.yield %g : !dart.stream<{b}>"]}
+
+
+_XDMA_CTX = None
+
+
+def xdma_ctx():
+    """the snax-opt context with snax_xdma registered (the tool registers it from a hardware configuration file)"""
+    global _XDMA_CTX
+    if _XDMA_CTX is None:
+        from snaxc.accelerators.snax_xdma import SNAXXDMAAccelerator
+        c = H.xctx().clone()
+        if c.get_optional_accelerator("snax_xdma") is None:
+            c.register_accelerator("snax_xdma", SNAXXDMAAccelerator)
+        _XDMA_CTX = c
+    return _XDMA_CTX
+
+
+XDMA_FAMS = ("xadd", "xresc_down", "xresc_up")
+
 ACCS = {
+    "xadd": {"acc": "snax_xdma", "tdims": [16], "rel": [[True]] * 3, "els": [4, 4, 4]},
+    "xresc_down": {"acc": "snax_xdma", "tdims": [16], "rel": [[True]] * 2, "els": [4, 1]},
+    "xresc_up": {"acc": "snax_xdma", "tdims": [16], "rel": [[True]] * 2, "els": [1, 4]},
     # name: (template relevance per operand over the template dims, element bytes per operand)
     "alu": {"acc": "snax_alu", "tdims": [4], "rel": [[True]] * 3, "els": [8, 8, 8]},
     "mm_i32": {"acc": "snax_gemmx", "tdims": [8, 8, 8], "rel": [[True, False, True], [False, True, True], [True, True, False]],
@@ -236,7 +269,8 @@ ACCS = {
 
 
 def gen_conv_case(rng, family=None, safe_bias=0.75):
-    fam = family or rng.choice(["alu", "alu", "alu", "mm_i32", "mm_i8", "gemm_i32", "gemm_i8", "simd"])
+    fam = family or rng.choice(["alu", "alu", "alu", "mm_i32", "mm_i8", "gemm_i32", "gemm_i8", "simd", "xadd", "xadd",
+                                "xresc_down", "xresc_up"])
     spec = ACCS[fam]
     t = rng.choice([0, 1, 1, 2, 3])
     tb = [rng.choice([1, 2, 2, 3, 4, 6]) for _ in range(t)]
@@ -310,6 +344,8 @@ def _patch_recorders():
         cls.set_stride_patterns = rec
     wrap(SNAXStreamer)
     wrap(SNAXGEMMXAccelerator)
+    from snaxc.accelerators.snax_xdma import SNAXXDMAAccelerator
+    wrap(SNAXXDMAAccelerator)
     _PATCHED = True
 
 
@@ -327,10 +363,15 @@ def impl_convert(case):
     _patch_recorders()
     fam = case["fam"]
     spec = ACCS[fam]
-    acc = SNAXAluAccelerator() if fam == "alu" else SNAXGEMMXAccelerator()
+    if fam in XDMA_FAMS:
+        from snaxc.accelerators.snax_xdma import SNAXXDMAAccelerator
+        acc, the_ctx, body = SNAXXDMAAccelerator(), xdma_ctx(), xdma_conv_body(fam)
+    elif fam == "alu":
+        acc, the_ctx, body = SNAXAluAccelerator(), H.xctx(), None
+    else:
+        acc, the_ctx, body = SNAXGEMMXAccelerator(), H.xctx(), gemmx_conv_body(fam)
     n = len(case["bounds"])
     operands = [("index", affine_text(n, [o["strides"]], [0])) for o in case["operands"]]
-    body = None if fam == "alu" else gemmx_conv_body(fam)
     mod = parse(schedule_text(spec["acc"], operands, n, case["bounds"], "dart.access_pattern", body), acc)
     ap = [o for o in mod.walk() if o.name == "dart.access_pattern"][0]
     streamers = acc.get_streamers(ap)
@@ -346,7 +387,7 @@ def impl_convert(case):
     with warnings.catch_warnings():
         warnings.simplefilter("ignore")
         try:
-            ConvertStreamToSnaxStreamPattern(H.xctx()).match_and_rewrite(ap, PatternRewriter(ap))
+            ConvertStreamToSnaxStreamPattern(the_ctx).match_and_rewrite(ap, PatternRewriter(ap))
         except Exception as e:   # noqa: BLE001
             err = type(e).__name__
     raw = _REC["raw"]
@@ -413,7 +454,7 @@ def convert_okb(e, spats, dims):
 
 
 # ---------------------------------------------------------------- L1
-HEADER = "From Snax Require Import Base.Prelude Model.C02Stream Model.C02Gemmx Model.C02Check.\n"
+HEADER = "From Snax Require Import Base.Prelude Model.C02Stream Model.C02Gemmx Model.C02Xdma Model.C02Check.\n"
 
 
 def correspondence(ctx):
@@ -438,6 +479,7 @@ def correspondence(ctx):
 
     # conversion
     conv, convm, fin, finm, okb, okbm, strm, strmm, cus, cusm = [], [], [], [], [], [], [], [], [], []
+    xcus, xcusm = [], []
     for i in range(ctx.n(160, 800)):
         case = gen_conv_case(rng)
         raw, err, final, info, custom = impl_convert(case)
@@ -452,7 +494,13 @@ def correspondence(ctx):
         convm.append({"case": case, "raw": raw, "error": err})
         ctx.count({"kind": "convert", "case": case, "raw": raw, "error": err},
                   sum(1 for b in case["bounds"] if b > 1) >= 2, f"cv{case}", "convert:" + case["fam"] + (":err" if raw is None else ""))
-        if custom is not None and raw is not None:
+        if custom is not None and raw is not None and case["fam"] in XDMA_FAMS:
+            cw = "None" if custom[0] is None else "(Some " + coqlist(
+                f"({coq_sp(p)}, {'SZero' if sc[0] == 'zero' else 'SOp ' + str(sc[1])})" for p, sc in custom[0]) + ")"
+            xcus.append(f"({'XAdd' if case['fam'] == 'xadd' else 'XDefault'}, {coqlist(coq_sp(p) for p in raw)}, {cw})")
+            xcusm.append({"case": case, "raw": raw, "custom": custom})
+            ctx.count({"kind": "customise", "fam": case["fam"], "raw": raw}, True, f"cu{case}", "customise:" + case["fam"])
+        elif custom is not None and raw is not None:
             kindc = {"mm_i32": "G3_i32", "mm_i8": "G3_i8", "gemm_i32": "G4_i32", "gemm_i8": "G4_i8", "simd": "GSimd"}[case["fam"]]
             cw = "None" if custom[0] is None else "(Some " + coqlist(
                 f"({coq_sp(p)}, {'SZero' if sc[0] == 'zero' else 'SOp ' + str(sc[1])})" for p, sc in custom[0]) + ")"
@@ -473,7 +521,7 @@ def correspondence(ctx):
                 strmm.append({"case": case, "operand": oi})
     groups += [("convert", "chk_convert", conv, convm), ("final", "chk_final", fin, finm),
                ("okb", "chk_okb", okb, okbm), ("stream", "chk_stream", strm[:400], strmm[:400]),
-               ("customise", "chk_custom", cus, cusm)]
+               ("customise", "chk_custom", cus, cusm), ("customise-xdma", "chk_xcustom", xcus, xcusm)]
     return H.run_groups("c02", groups, chunk=150, files=4, header=HEADER)
 
 
@@ -729,6 +777,67 @@ def l2_gemmx_case(rng_case):
     return probs, None, None
 
 
+KNOWN_XADD = "xdma_add_second_operand_assumed"
+
+
+def l2_xdma_add_case(c):
+    """xDMA add extension on row-major i32 operands: out[t, 0:16] = a[t, 0:16] + b[t, 0:16].
+    The reader must stream a's and b's elements of every step; the code streams a's step and `a + 512 bytes`."""
+    from xdsl.pattern_rewriter import PatternRewriter
+    from snaxc.accelerators.snax_xdma import SNAXXDMAAccelerator
+    from snaxc.transforms.convert_dart_to_snax_stream import ConvertStreamToSnaxStreamPattern
+    from snaxc.transforms.dart.dart_layout_resolution import DartLayoutResolutionPass
+    t = list(c["t"])
+    bounds = t + [16]
+    n = len(bounds)
+    rows = [0] * n
+    cur = 1
+    for j in reversed(range(n)):
+        rows[j] = cur
+        cur *= bounds[j]
+    shape = [cur]
+    operands = [(memref_text(shape, "i32", ("none",)), affine_text(n, [rows], [0])) for _ in range(3)]
+    acc = SNAXXDMAAccelerator()
+    mod = parse(schedule_text("snax_xdma", operands, n, bounds, body=xdma_conv_body("xadd")), acc)
+    sched = [o for o in mod.walk() if o.name == "dart.schedule"][0]
+    types = [a.type for a in sched.operands]
+    maps = [p.data for p in sched.patterns.data]
+    args = list(sched.operands)
+    DartLayoutResolutionPass().apply(xdma_ctx(), mod)
+    ap = [o for o in mod.walk() if o.name == "dart.access_pattern"][0]
+    with warnings.catch_warnings():
+        warnings.simplefilter("ignore")
+        ConvertStreamToSnaxStreamPattern(xdma_ctx()).match_and_rewrite(ap, PatternRewriter(ap))
+    sr = [o for o in mod.walk() if o.name == "snax_stream.streaming_region"][0]
+    pats = [([x.data for x in p.upper_bounds], [x.data for x in p.temporal_strides], [x.data for x in p.spatial_strides])
+            for p in sr.stride_patterns.data]
+
+    def src_of(v):       # which function argument a streamer pointer was extracted from
+        o = v.owner
+        return args.index(o.operands[0]) if hasattr(o, "operands") and len(o.operands) == 1 and o.operands[0] in args else None
+    srcs = [src_of(v) for v in sr.operands]
+    want = [[bytes_of(a, 4) for a in expected_steps(types[k], maps[k], bounds, 1, [True] * n, 4)] for k in range(3)]
+    probs = []
+    # the writer: operand 2 from its own pointer
+    if srcs[-1] != 2 or [bytes_of(w, 8) for w in nest_words(*pats[-1], [8])] != want[2]:
+        probs.append({"what": "xdma-add-writer-stream", "pattern": pats[-1], "source": srcs[-1], "klass": None})
+    readers = list(zip(srcs[:-1], pats[:-1]))
+    got = {}
+    for k, p in readers:
+        got.setdefault(k, []).extend(bytes_of(w, 8) for w in nest_words(*p, [8]))
+    if set(got) == {0, 1} and got[0] == want[0] and got[1] == want[1]:
+        return probs, None, None                      # both addends streamed from their own buffers
+    # known class: one reader on operand 0, per step [a's step, the same 512 bytes further]; operand 1 never read
+    inter = [s for a in want[0] for s in (a, [b + 512 for b in a])]
+    if srcs[:-1] == [0] and got.get(0) == inter:
+        probs.append({"what": "xdma-add-second-operand-not-streamed", "pattern": pats[0], "sources": srcs, "klass": KNOWN_XADD,
+                      "note": "operand 1's pointer is unused; the reader fetches operand 0's step and operand 0 + 512 bytes"})
+    else:
+        probs.append({"what": "xdma-add-reader-stream", "patterns": pats[:-1], "sources": srcs, "klass": None,
+                      "streamer": [s[:8] for s in got.get(0, [])[:4]], "operand0_steps": [s[:8] for s in want[0][:2]]})
+    return probs, None, None
+
+
 def _reorder(steps, ub, bounds):
     """streamer steps are issued innermost-temporal first (k, n, m); the schedule enumerates m, n, k
     lexicographically with k fastest as well: same order when the streamer keeps all three temporal dims."""
@@ -757,6 +866,15 @@ def search(ctx, deep=False):
         ctx.count({"L2": "gemmx", "case": c}, True, f"l2g{c}", "L2-gemmx")
         for p in probs:
             fails.append({"what": p["what"], "acc": "snax_gemmx", "case": c, "detail": p, "klass": klass})
+    for i in range(ctx.n(6, 40)):
+        c = {"t": [rng.choice([1, 2, 3, 4]) for _ in range(rng.choice([1, 1, 2, 3]))]}
+        try:
+            probs, klass, note = l2_xdma_add_case(c)
+        except Exception as e:   # noqa: BLE001
+            probs = [{"what": "harness-raised", "error": repr(e)[:300]}]
+        ctx.count({"L2": "xdma-add", "case": c}, True, f"l2x{c}", "L2-xdma-add")
+        for p in probs:
+            fails.append({"what": p["what"], "acc": "snax_xdma", "case": c, "detail": p, "klass": p.get("klass")})
     seen, out = set(), []
     for f in fails:
         k = (f["what"], f["acc"], f["klass"])
@@ -769,6 +887,8 @@ def search(ctx, deep=False):
 def _rerun(f):
     if f.get("acc") == "snax_gemmx":
         return l2_gemmx_case(f["case"])
+    if f.get("acc") == "snax_xdma":
+        return l2_xdma_add_case(f["case"])
     c = f["case"]
     spec = {"t": list(c["t"]), "ops": [dict(o, layout=_tup(o["layout"])) for o in c["ops"]]}
     return l2_alu_case(spec)
